@@ -60,6 +60,88 @@ let eval_column (rows : BinNums.coq_Z option list list) (e : CheckedArith.aexpr)
     L [A "ok";
        L (List.map (function CheckedArith.COk v -> of_opt of_z v | _ -> A "?") res)]
 
+(* ---- QuerySpec ------------------------------------------------------------------------------- *)
+let to_val (x : Sx.t) : QuerySpec.coq_val =
+  match x with
+  | A "null" -> QuerySpec.VNull
+  | L [A "i"; z] -> QuerySpec.VInt (to_z z)
+  | L [A "f"; b] -> QuerySpec.VFloat (to_n b)
+  | L [A "s"; s] -> QuerySpec.VStr (to_bytes s)
+  | L [A "b"; b] -> QuerySpec.VBool (to_bool b)
+  | _ -> bad "val"
+
+let of_val (v : QuerySpec.coq_val) : Sx.t =
+  match v with
+  | QuerySpec.VNull -> A "null"
+  | QuerySpec.VInt z -> L [A "i"; of_z z]
+  | QuerySpec.VFloat b -> L [A "f"; of_n b]
+  | QuerySpec.VStr s -> L [A "s"; of_bytes s]
+  | QuerySpec.VBool b -> L [A "b"; of_bool b]
+  | QuerySpec.VAnyFloat -> A "anyfloat"
+
+let to_cmp (x : Sx.t) : QuerySpec.cmp_op =
+  match atom x with
+  | "eq" -> QuerySpec.CEq | "ne" -> QuerySpec.CNe | "lt" -> QuerySpec.CLt
+  | "le" -> QuerySpec.CLe | "gt" -> QuerySpec.CGt | "ge" -> QuerySpec.CGe
+  | _ -> bad "cmp"
+
+let rec to_expr (x : Sx.t) : QuerySpec.expr =
+  match x with
+  | L [A "col"; i] -> QuerySpec.ECol (nat_of_int (to_int i))
+  | L [A "const"; v] -> QuerySpec.EConst (to_val v)
+  | L [A "arith"; op; l; r] -> QuerySpec.EArith (to_op op, to_expr l, to_expr r)
+  | L [A "cmp"; c; l; r] -> QuerySpec.ECmp (to_cmp c, to_expr l, to_expr r)
+  | L [A "and"; l; r] -> QuerySpec.EAnd (to_expr l, to_expr r)
+  | L [A "or"; l; r] -> QuerySpec.EOr (to_expr l, to_expr r)
+  | L [A "not"; e] -> QuerySpec.ENot (to_expr e)
+  | L [A "isnull"; e] -> QuerySpec.EIsNull (to_expr e)
+  | L [A "isnotnull"; e] -> QuerySpec.EIsNotNull (to_expr e)
+  | L [A "like"; e; p] -> QuerySpec.ELike (to_expr e, to_bytes p)
+  | _ -> bad "expr"
+
+let to_aggk (x : Sx.t) : QuerySpec.agg =
+  match atom x with
+  | "count" -> QuerySpec.ACount | "sum" -> QuerySpec.ASum
+  | "min" -> QuerySpec.AMin | "max" -> QuerySpec.AMax
+  | _ -> bad "aggk"
+
+let to_sel (x : Sx.t) : QuerySpec.sel =
+  match x with
+  | L [A "plain"; e] -> QuerySpec.SPlain (to_expr e)
+  | L [A "agg"; k; e] -> QuerySpec.SAgg (to_aggk k, to_expr e)
+  | L [A "avg"; e] -> QuerySpec.SAvg (to_expr e)
+  | _ -> bad "sel"
+
+let to_okey (x : Sx.t) =
+  match x with
+  | L [L [A "expr"; e]; d] -> (QuerySpec.OExpr (to_expr e), to_bool d)
+  | L [L [A "out"; i]; d] -> (QuerySpec.OOut (nat_of_int (to_int i)), to_bool d)
+  | _ -> bad "okey"
+
+let to_query (x : Sx.t) : QuerySpec.query =
+  match x with
+  | L [A "query"; L (A "select" :: sels); L [A "where"; w]; L [A "order"; ord]; L [A "limit"; lim]; L [A "offset"; off]] ->
+      { QuerySpec.q_select = List.map to_sel sels;
+        q_where = to_opt to_expr w;
+        q_order = to_list to_okey ord;
+        q_limit = to_opt to_n lim;
+        q_offset = to_n off }
+  | _ -> bad "query"
+
+let to_rows (x : Sx.t) = to_list (to_list to_val) x
+
+let to_output (x : Sx.t) : QuerySpec.output =
+  match x with
+  | L [A "rows"; rows] -> QuerySpec.ORows (to_rows rows)
+  | L [A "err"; A "overflow"] -> QuerySpec.OOverflow
+  | _ -> QuerySpec.OOther
+
+let of_output (o : QuerySpec.output) : Sx.t =
+  match o with
+  | QuerySpec.ORows rows -> L [A "rows"; of_list (of_list of_val) rows]
+  | QuerySpec.OOverflow -> L [A "err"; A "overflow"]
+  | QuerySpec.OOther -> A "other"
+
 let run (entry : string) (inp : Sx.t) : Sx.t =
   match entry, inp with
   | "perform_checked", L [op; a; b] ->
@@ -74,6 +156,9 @@ let run (entry : string) (inp : Sx.t) : Sx.t =
   | "sum_tree", t -> of_opt of_z (CheckedArith.sum_tree (to_mtree t))
   | "aexpr_column", L [rows; e] ->
       eval_column (to_list (to_list (to_opt to_z)) rows) (to_aexpr e)
+  | "q_valid", L [rows; q; out] ->
+      of_bool (QuerySpec.valid (to_query q) (to_rows rows) (to_output out))
+  | "q_eval", L [rows; q] -> of_output (QuerySpec.eval_query (to_query q) (to_rows rows))
   | _ -> raise (Conv ("unknown entry or bad input shape: " ^ entry))
 
 let () = Loop.main run
